@@ -11,6 +11,7 @@ os.makedirs(root, exist_ok=True)
 tmpl = open('/verif/tools/seed_prompt.tmpl').read()
 props = {json.loads(l)['id']: json.loads(l) for l in open('/verif/properties.jsonl')}
 claimed = [c['property_id'] for c in json.load(open('/verif/MANIFEST.json'))['checks']]
+if os.environ.get('ONLY'): claimed = [p for p in claimed if p in os.environ['ONLY'].split()]  # ONLY="C04 C09": a partial round
 for P in claimed:
     wt = f'{root}/{P}'
     if not os.path.isdir(wt):
